@@ -435,3 +435,20 @@ Lemma nonmutating_frame_cb_l : forall m f l, snd (call_cb m f l) = l.
 Proof. intros m f l; destruct m; reflexivity. Qed.
 Lemma mutating_table_l : forall m, documented_mutating m = by_pointer m || (match m with MReverse => true | _ => false end).
 Proof. destruct m; reflexivity. Qed.
+
+(* ------------------------------------------------------------------ sequences *)
+Lemma step_is_spec_l : forall l s p, spec_step l s = Some p -> do_step l s = p.
+Proof.
+  intros l s p H; destruct s; cbn in *.
+  - apply call_is_spec_l; exact H.
+  - apply call_cb_is_spec_l; exact H.
+  - injection H as <-. apply reduce_is_spec_l.
+Qed.
+Lemma seq_is_spec_l : forall ss l ps, spec_seq l ss = Some ps -> run_seq l ss = ps.
+Proof.
+  induction ss as [|s r IH]; intros l ps H; cbn in *.
+  - injection H as <-. reflexivity.
+  - destruct (spec_step l s) as [p|] eqn:E; [|discriminate].
+    destruct (spec_seq (snd p) r) as [ps'|] eqn:E2; [|discriminate].
+    injection H as <-. rewrite (step_is_spec_l l s p E). cbn. f_equal. apply IH. exact E2.
+Qed.
